@@ -147,12 +147,28 @@ CHECKS.update({
              "(generators behind Rc<dyn> are not explorable), all adaptors with user functions, chain/zip/product, laziness.",
         ref="DESIGN.md 9"),
 })
+CHECKS.update({
+    "C17": dict(
+        engine="K-unit slice",
+        technique="bounded model checking (Kani/CBMC) of a verbatim source slice of XMapping's bucket-table kernel with symbolic user hash/equality tables",
+        text="`enum KeyLocation` and the functions locate, get, try_put_located, put_located, put, try_put, new of `impl XMapping` are copied "
+             "verbatim from src/builtin/mapping.rs on every run. Over a universe of 3 keys with SYMBOLIC equality classes and a SYMBOLIC i64 hash "
+             "per class (any hash that agrees with the equality: injective to constant, in or out of range): after every history of 2 (quick) / 3 "
+             "(thorough) puts with read-modify-write closures, lookup of a symbolic probe key finds exactly the stored classes with the value an "
+             "association list holds, len is the number of stored classes, and the version cloned before the last put is unchanged; when the "
+             "user's hash or equality fails at ANY call (error value or violation) or the hash is out of range, put returns exactly that "
+             "failure, calls nothing afterwards, and the mapping is unchanged.",
+        note="Trusted: Kani/CBMC and the shim environment (/verif/kani/unit/slices/mapping_kernel.rs): std HashMap and Vec are replaced by "
+             "fixed-capacity models with the same contract (3 slots; overflow is a tripwire), the evaluator by symbolic tables. Outside: the "
+             "mapping natives themselves (Rc<dyn XNativeValue> is not explorable), removal (the pop rebuild is sliced but its harness does not "
+             "finish: `_x`), bulk update, set.rs, the helpers written in the language, histories > 3, universes > 3 keys.",
+        ref="DESIGN.md 9.8"),
+})
 NA = {
     "C01": "whole-program soundness needs the parser and the evaluator on symbolic programs; the local kernels (parameter binding in from_template, call typing) sit inside functions whose error paths drop half-built scopes/values, whose recursive drop glue CBMC does not finish (DESIGN.md 9.2); panics of natives found on the way are reported and fixed under the property whose harness reached them",
     "C04": "bind_in_assignment / common_type were encoded (kani/crate/xtype.rs: reference relation over a symbolic universe of depth-2 types) but no harness finished within 2400 s even with the HashMap model and per-function recursion bounds: every arm of the recursive type functions is explored at every level (DESIGN.md 9.2); two defects found while writing the oracle were repaired (7baede9, a60a111)",
     "C05": "resolve_overload lives in CompilationScope (scope tables, XExpr construction, dynamic factories): harnesses through it do not finish; its ranking part was extracted as a verbatim slice (kani/unit/slices/overload_rank.rs, harnesses c05_*_x) but the slice's own Vec pushes with symbolic counts exhaust the SAT encoder (20 GB); a documented-order defect found while writing the oracle was repaired (4c73af4)",
     "C10": "bounded work of whole builtins/pipelines needs the natives that iterate sequences/generators behind Rc<dyn XNativeValue>, which CBMC does not finish (DESIGN.md 9.2); the search budget itself is decided under C08",
-    "C17": "XMapping/XSet natives receive mappings as Rc<dyn XNativeValue> values and iterate bucket maps; no harness through them finished within the thorough cap (DESIGN.md 9.2)",
     "C02": "needs the pest parser and whole-program evaluation against a reference evaluator; neither can be encoded for CBMC/SMT here (DESIGN.md 4 C02)",
 }
 PENDING = []
@@ -188,7 +204,7 @@ def main():
             "add_only": True,
         },
         "engines": [
-            {"name": "K-unit", "path": "/verif/kani/unit", "serves_properties": ["C14", "C18", "C19"], "kind_free_text": K + "; leaf files compiled unmodified against an i128 model of num-bigint"},
+            {"name": "K-unit", "path": "/verif/kani/unit", "serves_properties": ["C07", "C08", "C11", "C12", "C14", "C16", "C17", "C18", "C19"], "kind_free_text": K + "; leaf files compiled unmodified against an i128 model of num-bigint"},
             {"name": "K-crate", "path": "/verif/kani/crate", "serves_properties": ["C01", "C03", "C06", "C08", "C09", "C10", "C11", "C13", "C15", "C16"], "kind_free_text": K + "; whole crate, harness modules appended to scratch copies"},
             {"name": "X-smt", "path": "/verif/xsmt", "serves_properties": ["C20", "C14", "C03", "C12"], "kind_free_text": S},
         ],
